@@ -89,6 +89,14 @@ class IterL:
         self.items, self.idx = list(items), idx
 
 
+class FMap:
+    """`iter.filter_map(closure)` (lazy)"""
+    __slots__ = ("it", "closure")
+
+    def __init__(self, it, closure):
+        self.it, self.closure = it, closure
+
+
 class Uninit:
     def __repr__(self):
         return "Uninit"
@@ -855,6 +863,12 @@ class Executor:
             return ("model", "Iterator::Iter::next")
         if re.match(r"^Iterator::\w+::(rev|cloned|copied|enumerate)$", norm):
             return ("model", "Iterator::adaptor::" + norm.rsplit("::", 1)[1])
+        if re.match(r"^Iterator::\w+::filter_map$", norm):
+            return ("model", "Iterator::adaptor::filter_map")
+        if norm == "Iterator::FilterMap::collect":
+            return ("model", "Iterator::FilterMap::collect")
+        if re.match(r"^Index::(Vec|slice)::index$", norm):
+            return ("model", "Index::Vec::index")
         if re.match(r"^IntoIterator::\w+::into_iter$", norm) or re.match(r"^\w+::(iter|iter_mut)$", norm):
             return ("model", "IntoIterator::slice::into_iter")
         tail = norm.split("::")[-1]
@@ -1085,6 +1099,41 @@ class Executor:
             fr.locals[n] = v
         state.frames.append(fr)
 
+    def eval_closure_all(self, state, clo, cargs):
+        """run a capture-free closure to completion on a copy of the state: -> list of (path condition, mem, value) alternatives"""
+        c = self.read_lref(state, clo) if isinstance(clo, LRef) else clo
+        if not (isinstance(c, Agg) and c.kind == "closure") or any(isinstance(x, LRef) for x in c.fields):
+            raise Inconclusive("closure with local captures cannot be evaluated eagerly")
+        f = self._closure_by_sig.get(c.name)
+        if f is None:
+            raise Inconclusive("closure body not found")
+        self.stats["inlined"].add(self.qual.get(f.name, f.name))
+        sub = State()
+        fr = Frame(0, f, None, None)
+        sub.next_fid = 1
+        for (n, ty), v in zip(f.params, [c] + list(cargs)):
+            if isinstance(v, Sym) and v.ty is None and ty and "{closure" not in ty:
+                v = Sym(v.path, ty)
+            fr.locals[n] = v
+        sub.frames.append(fr)
+        sub.pc = list(state.pc)
+        sub.mem = dict(state.mem)
+        sub.events = []
+        saved = self.results
+        self.results = []
+        try:
+            self._run_loop([sub])
+            res = self.results
+        finally:
+            self.results = saved
+        out = []
+        for r in res:
+            if r.kind != "return":
+                raise Inconclusive("closure evaluation ended with %s: %s" % (r.kind, r.value))
+            self.stats["paths"] -= 1
+            out.append((r.pc, r.mem, r.value, r.events))
+        return out
+
     def call_closure(self, state, frame, clo, cargs, dest, ret_block):
         """call a closure value (Agg closure or reference to one) with explicit args"""
         c = clo
@@ -1097,6 +1146,17 @@ class Executor:
             raise Inconclusive("closure body not found")
         self.stats["inlined"].add(self.qual.get(f.name, f.name))
         self.push_frame(state, f, [clo] + list(cargs), dest, ret_block)
+
+
+def inner_ty(ty):
+    """`Option<&X>` / `Result<X, E>` -> first generic argument"""
+    if not ty:
+        return None
+    t = strip_ref(ty) if ty.strip().startswith("&") else ty.strip()
+    m = re.match(r"(?:[\w:]+::)?(?:Option|Result)<(.*)>$", t)
+    if not m:
+        return None
+    return parse.split_top(m.group(1))[0]
 
 
 def elem_ty(ty):
@@ -1353,6 +1413,7 @@ def m_branch_option(ex, state, frame, dest, args, ret_block, work, callee):
         if v.variant == "Some":
             return _ret(ex, state, frame, dest, Agg("adt", "ControlFlow", "Continue", v.fields[:1]), ret_block)
         return _ret(ex, state, frame, dest, Agg("adt", "ControlFlow", "Break", [Agg("adt", "Option", "None", [])]), ret_block)
+    ity = inner_ty(v.ty) if isinstance(v, (Sym, Opaque)) else None
     if isinstance(v, Sym):
         v = Sym(v.path, "Option<?>")
     elif isinstance(v, Opaque):
@@ -1362,7 +1423,7 @@ def m_branch_option(ex, state, frame, dest, args, ret_block, work, callee):
 
     def mk(i):
         if i == 1:
-            inner = Sym(v.path + (("as", "Some"), 0)) if isinstance(v, Sym) else Opaque(("some-of", v.origin), None)
+            inner = Sym(v.path + (("as", "Some"), 0), ity) if isinstance(v, Sym) else Opaque(("some-of", v.origin), ity)
             return Agg("adt", "ControlFlow", "Continue", [inner])
         return Agg("adt", "ControlFlow", "Break", [Agg("adt", "Option", "None", [])])
     return _fork_enum(ex, state, frame, dest, v, ["None", "Some"], mk, ret_block, work)
@@ -1374,6 +1435,11 @@ def m_from_residual(ex, state, frame, dest, args, ret_block, work, callee):
     if isinstance(v, Agg) and v.kind == "adt":
         return _ret(ex, state, frame, dest, Agg("adt", v.name, v.variant, v.fields), ret_block)
     return _ret(ex, state, frame, dest, Agg("adt", "Result", "Err", [Opaque(("residual",), None)]), ret_block)
+
+
+@model("Default::Option::default")
+def m_option_default(ex, state, frame, dest, args, ret_block, work, callee):
+    return _ret(ex, state, frame, dest, Agg("adt", "Option", "None", []), ret_block)
 
 
 @model("Vec::new", "Vec::with_capacity")
@@ -1503,6 +1569,71 @@ def m_iter_adaptor(ex, state, frame, dest, args, ret_block, work, callee):
     raise Inconclusive("iterator adaptor %s on %r" % (which, it))
 
 
+@model("Iterator::adaptor::filter_map")
+def m_filter_map(ex, state, frame, dest, args, ret_block, work, callee):
+    it = _val(ex, state, args[0])
+    if not isinstance(it, (IterS, IterL)):
+        raise Inconclusive("filter_map over %r" % (it,))
+    return _ret(ex, state, frame, dest, FMap(it, args[1]), ret_block)
+
+
+@model("Iterator::FilterMap::collect")
+def m_filter_map_collect(ex, state, frame, dest, args, ret_block, work, callee):
+    fm = _val(ex, state, args[0])
+    if not isinstance(fm, FMap):
+        raise Inconclusive("collect of %r" % (fm,))
+    it = fm.it
+    if isinstance(it, IterL):
+        elems_by_len = [(None, list(it.items[it.idx:]))]
+    else:
+        n = ex.length(state, it.base)
+        elems_by_len = []
+        for k in range(it.idx, ex.slice_bound + 1):
+            c = (n == k) if not isinstance(n, int) else z3.BoolVal(n == k)
+            if ex.feasible(state, c):
+                elems_by_len.append((c, [Sym(it.base.path + (("idx", i),), elem_ty(it.base.ty)) for i in range(it.idx, k)]))
+    alts = []
+    for c, elems in elems_by_len:
+        st0 = state.clone()
+        if c is not None:
+            st0.pc.append(c)
+        cur = [(st0, [])]
+        for e in elems:
+            nxt = []
+            for st, items in cur:
+                for pc, mem, val, evs in ex.eval_closure_all(st, fm.closure, [e]):
+                    st2 = st.clone()
+                    st2.pc = list(pc)
+                    st2.mem = dict(mem)
+                    st2.events = st2.events + list(evs)
+                    if isinstance(val, Agg) and val.kind == "adt" and val.name == "Option":
+                        nxt.append((st2, items + [val.fields[0]] if val.variant == "Some" else items))
+                    else:
+                        raise Inconclusive("filter_map closure returned %r" % (val,))
+            cur = nxt
+        alts += cur
+    if not alts:
+        raise Inconclusive("filter_map().collect(): no feasible alternative")
+    ex.stats["forks"] += len(alts) - 1
+    for st, items in alts:
+        fr = st.frames[-1]
+        ex.write_place(st, fr, dest, VecL(items))
+        fr.block = ret_block
+        work.append(st)
+    return "done"
+
+
+@model("Index::Vec::index")
+def m_index(ex, state, frame, dest, args, ret_block, work, callee):
+    v = _val(ex, state, args[0])
+    i = args[1]
+    if isinstance(v, VecL) and isinstance(i, int) and i < len(v.items):
+        return _ret(ex, state, frame, dest, v.items[i], ret_block)
+    if isinstance(v, Sym) and isinstance(i, int):
+        return _ret(ex, state, frame, dest, Sym(v.path + (("idx", i),), elem_ty(v.ty)), ret_block)
+    return _ret(ex, state, frame, dest, Opaque(("index",), None), ret_block)
+
+
 @model("HashMap::get")
 def m_hashmap_get(ex, state, frame, dest, args, ret_block, work, callee):
     m = _val(ex, state, args[0])
@@ -1560,7 +1691,7 @@ def m_and_then(ex, state, frame, dest, args, ret_block, work, callee):
                 ex.write_place(st, fr, dest, Agg("adt", "Option", "None", []))
                 fr.block = ret_block
             else:
-                inner = Sym(v.path + (("as", "Some"), 0), None)
+                inner = Sym(v.path + (("as", "Some"), 0), inner_ty(v.ty))
                 if is_map:
                     ex.write_place(st, fr, dest, Agg("adt", "Option", "Some", [Opaque(("map", pstr(v.path)), None)]))
                     fr.block = ret_block
